@@ -12,9 +12,11 @@ CASES = (
 import os as _os
 
 _PATCHES = _os.path.join(_os.path.dirname(_os.path.abspath(__file__)), "patches")
+_WALKER = "\n\ndef verify_root_chain(trusted_root, offered_roots):\n    roots = [trusted_root] + list(offered_roots)\n    for held, offered in %s:\n        verify_root(held, offered)\n    return roots[-1]\n\ndef verify_delegation("
 CASES += [
-    # a chain walker added to the CLI (several offered roots on one command line) that pairs every
-    # offer with the file before it: zip(items, items[1:]) - the property holds
-    Case("walker-overlapping-pairs", "keep", [("@seed", _os.path.join(_PATCHES, "c04-walker-overlapping-pairs.diff"), None)], None),
+    # a chain walker in the library that pairs every offer with the root accepted just before it:
+    # zip(roots, roots[1:]) - the property holds; zip(it, it) verifies every second link only
+    Case("walker-overlapping-pairs", "keep", [("authentication", "\n\ndef verify_delegation(", _WALKER % "zip(roots, roots[1:])")], None),
+    Case("walker-disjoint-pairs", "break", [("authentication", "\n\ndef verify_delegation(", "\n\ndef _two_at_a_time(items):\n    it = iter(items)\n    return zip(it, it)" + _WALKER % "_two_at_a_time(roots)")], "S5"),
 ]
 MIN_APPLIED = 20
